@@ -1,5 +1,5 @@
 """C11 All-matches mode is a complete leftmost non-overlapping scan."""
-import gen, gen_rules, patdiff
+import gen, gen_rules, impl, patdiff
 from props.common_pat import blob_tagger, finding_reproduces, replay  # noqa: F401
 
 import enginetie
@@ -17,6 +17,31 @@ def run(ctx, factor):
     rep.rule = ("rules of 1-3 items (with groups and repetitions) on listings that contain 1-4 realisations of the rule, "
                 "adjacent, separated by 0-2 instructions, or overlapping (second realisation starts inside the first); "
                 "all-matches and first-match texts vs the specification's leftmost non-overlapping scan")
+    # thousands of occurrences: the scan is complete however long the list gets (compared with a direct count of the lines)
+    for _ in range(ctx.budget(1, 6) * factor):
+        m = g.pick(["call", "mov", "xor"])
+        k = g.pick([1100, 1600, 2300])
+        body, occ, addr = [], [], 0x401000
+        for _i in range(k):
+            if g.chance(0.5):
+                body.append(("%x" % addr, g.pick(["nop", "ret", "push"]), []))
+                addr += g.int(1, 3)
+            body.append(("%x" % addr, m, ["%rax"] if m != "call" else ["401000 <f>"]))
+            occ.append("%x" % addr)
+            addr += g.int(2, 7)
+        import gen
+        text = gen.render_listing(body, g)
+        doc = {"pattern": [m]}
+        got = impl.run_op(ctx.scratch, doc, text, mode="all", ret="list", addr_only=True)
+        first = impl.run_op(ctx.scratch, doc, text, mode="first", ret="list", addr_only=True)
+        case = {"rule": doc, "listing": text[:1500] + "... (%d occurrences of %s)" % (k, m)}
+        rep.case(case, got[0] == "ok", tags=["thousands-of-occurrences"])
+        if got != ("ok", occ):
+            rep.violate("scan-incomplete-on-a-long-list", case, {"number_of_matches": len(occ), "last": occ[-3:]},
+                        {"outcome": got[0], "number_of_matches": len(got[1]) if got[0] == "ok" else None,
+                         "last": got[1][-3:] if got[0] == "ok" else None}, model_agrees_with_spec=None)
+        if first != ("ok", occ[:1]):
+            rep.violate("first-match-is-not-the-head-of-the-list", case, occ[:1], first, model_agrees_with_spec=None)
     n = ctx.budget(300, 8000) * factor
     for _ in range(n):
         doc = gen_rules.rule(g, FEATS, nitems=g.int(1, 3), depth=1)
